@@ -1209,7 +1209,9 @@ class Sim:
         keys = [k for k in keys if k in avail]
         keys = [k for k in keys if worldmod.shape_feature_supported(self.world, k)] if on else keys
         if not op.get("allow_ids", False):
-            keys = [k for k in keys if k != tr.features.tracklet_key or on]
+            # re-computing ids renumbers every track/lineage while the undo history still
+            # holds the old numbers; only the C10 profile schedules that (DESIGN §4 C10)
+            keys = [k for k in keys if k not in (tr.features.tracklet_key, tr.features.lineage_key)]
         if not keys and not op.get("unknown"):
             return None
         unknown = bool(op.get("unknown"))
